@@ -735,7 +735,11 @@ func (d *Decoder) Repair(checkParity bool) ([]string, error) {
 			}
 		}
 
-		data := buf.Bytes()[:decoderInputFileInfo.byteCount]
+		bufBytes := buf.Bytes()
+		if decoderInputFileInfo.byteCount > len(bufBytes) {
+			return repairedPaths, errors.New("file byte count too big for its slices")
+		}
+		data := bufBytes[:decoderInputFileInfo.byteCount]
 		if sixteenKHash(data) != decoderInputFileInfo.sixteenKHash {
 			return repairedPaths, errors.New("hash mismatch (16k) in reconstructed data")
 		} else if md5.Sum(data) != decoderInputFileInfo.hash {
